@@ -93,10 +93,25 @@ func cmdNetLocal(args []string) {
 	segments := fs.Int("segments", 40, "number of segments")
 	steps := fs.Int("steps", 12, "steps per segment")
 	par := fs.Int("par", 8, "segments run concurrently")
+	raceRounds := fs.Int("race-rounds", 600, "rounds of the concurrent-updates scenario (0 = skip)")
 	_ = fs.Parse(args)
 	res := &Result{}
 	defer res.write(*out)
 	col := trace.Install()
+	// first, alone and without schedule perturbation (it needs two session goroutines to run truly side by side)
+	var raceHooks []verifhook.Record
+	if *raceRounds > 0 {
+		hooks, viol, inconcl, done := runNLRace(col, *seed, *raceRounds)
+		if inconcl != "" {
+			res.Inconclusive = append(res.Inconclusive, inconcl)
+		}
+		for _, v := range viol {
+			res.violate(v.Sig, v.What, v.Replay)
+		}
+		raceHooks = hooks
+		res.count("race_rounds")
+		res.Counters["race_rounds"] = done
+	}
 	installPerturbation(*seed, 8, 300*time.Microsecond)
 
 	segs := make([]*nlSegment, *segments)
@@ -120,7 +135,7 @@ func cmdNetLocal(args []string) {
 	}
 	enc := json.NewEncoder(f)
 	distinct := map[string]bool{}
-	var allHooks []verifhook.Record
+	allHooks := raceHooks
 	for _, s := range segs {
 		if s.inconcl != "" {
 			res.Inconclusive = append(res.Inconclusive, s.inconcl)
